@@ -21,7 +21,7 @@ ASSUMPTIONS = ["reference definitions are the class docstrings / documented beha
 
 def run(ctx):
     classes = pat_props.focus_classes(lambda c: not c.stochastic)
-    n_cases = ctx.scale(3000, 80000)
+    n_cases = ctx.scale(3000, 300000)
     scripts, meta = [], {}
     for i in range(n_cases):
         cls = classes[i % len(classes)]
